@@ -7,6 +7,7 @@ package main
 import (
 	"context"
 	"encoding/json"
+	"errors"
 	"fmt"
 	"os"
 	"path/filepath"
@@ -35,11 +36,12 @@ type report struct {
 }
 
 type plugin struct {
-	mu   sync.Mutex
-	rep  *report
-	path string
-	dir  string
-	die  bool
+	mu       sync.Mutex
+	rep      *report
+	path     string
+	dir      string
+	die      bool
+	failSync bool
 }
 
 func (p *plugin) save() {
@@ -58,6 +60,9 @@ func (p *plugin) Configure(_ context.Context, cfg, rt, ver string) (api.EventMas
 }
 
 func (p *plugin) Synchronize(context.Context, []*api.PodSandbox, []*api.Container) ([]*api.ContainerUpdate, error) {
+	if p.failSync {
+		return nil, errors.New("probe: deliberate synchronization failure")
+	}
 	return nil, nil
 }
 
@@ -98,7 +103,7 @@ func main() {
 			rep.Fds[e.Name()] = t
 		}
 	}
-	p := &plugin{rep: rep, dir: c.Reports, path: filepath.Join(c.Reports, fmt.Sprintf("%s.%d.json", name, os.Getpid())), die: c.Behaviour == "dielater"}
+	p := &plugin{rep: rep, dir: c.Reports, path: filepath.Join(c.Reports, fmt.Sprintf("%s.%d.json", name, os.Getpid())), die: c.Behaviour == "dielater", failSync: c.Behaviour == "failsync"}
 	p.save()
 	switch c.Behaviour {
 	case "exit":
